@@ -4,11 +4,15 @@ import Driver.Util
 
   `C07 run  <cls> <owned 0|1> <off,dt,slope,inter> <alias> <aff> <xflip 0|1> <src> <exts> <mat> <resolve> <table> <ops>`
   `C07 runq …same…`   (saves by file NAME: the I/O calls are not observable, so `n=… […]` is not printed)
+  `C07 runn …same…`   (saves by file NAME through instrumented openers: `saveByName`, I/O calls printed, faults allowed)
   `C07 matload <flip 0|1> <mat> <M>`   (`Spm99AnalyzeImage.from_file_map` on a `.mat` file; matrices `-` = absent)
 
   * slope/inter: `n` (NaN) or the raw bits as a natural number; alias: `-`|`c`|`s`
   * aff: `-` (affine None) or 16 integers `,`-separated (row major); src: `a` (array) | `m<file>` (proxy with
-    memory map on the file with that identity) | `r<file>` (proxy, no memory map)
+    memory map on the file with that identity) | `r<file>` (proxy, no memory map) | `v<file>:<chain>` (an array held
+    by the image whose owners are `chain`, letters M memmap / m mmap / v memoryview / n ndarray / o other)
+  `C07 wdata <8 flags 0|1>`   (one iteration of the slice loop of `_write_data`: `1` if it stores into its input)
+  `C07 mapsfile <chain>`   (`volumeutils.maps_file` on an object with that chain of owners → `1` | `0`)
   * exts: `-` or `content:pad,content:pad,…`; mat: `-` or `n,n,…` (write sizes)
   * resolve: `<compat>,<smallest>`, each a dtype code or `x` (ValueError)
   * table: `-` or `code:wok:slope:inter:nWrites:wBytes;…` (writer externals per out dtype code; wok `0` =
@@ -110,8 +114,22 @@ def parseM4? (s : String) : Option M4 :=
 def parseAff? (s : String) : Option (Option M4) :=
   if s = "-" then some none else (parseM4? s).map some
 
+def parseOwner? : String → Option Owner
+  | "M" => some .memmap | "m" => some .mmap | "v" => some .memoryview | "n" => some .ndarray | "o" => some .other
+  | _ => none
+
+/-- chain of owners: `-` (empty) or letters `,`-separated -/
+def parseChain? (s : String) : Option (List Owner) :=
+  if s = "-" then some [] else (s.splitOn ",").mapM parseOwner?
+
 def parseSrc? (s : String) : Option Src :=
   if s = "a" then some .array
+  else if s.startsWith "v" then
+    match (s.drop 1).toString.splitOn ":" with
+    | [f, ch] => match f.toNat?, parseChain? ch with
+        | some f, some ch => some (Src.view f ch)
+        | _, _ => none
+    | _ => none
   else if s.startsWith "m" then (s.drop 1).toString.toNat?.map (fun f => Src.proxy f true)
   else if s.startsWith "r" then (s.drop 1).toString.toNat?.map (fun f => Src.proxy f false)
   else none
@@ -181,6 +199,7 @@ def firstSeen {α} [DecidableEq α] (seen : List α) (x : α) : List α × Nat :
 structure St where
   img   : Img
   quiet : Bool
+  byName : Bool
   affs  : List (Option M4)
   datas : List Nat
   hdrs  : List (Hdr × Nat)
@@ -205,7 +224,7 @@ def runOp (cls : Cls) (env : Env) (st : St) : DOp → St
   | .save orig req dest =>
       let env := { env with destImage := dest }
       let o := if orig then saveOrig cls env req st.img
-               else if st.quiet then saveByName cls env req st.img else save cls env req st.img
+               else if st.byName then saveByName cls env req st.img else save cls env req st.img
       let (st1, s) := showState st o.img
       let (outs, oid) := match o.err with
         | none => let (os, i) := firstSeen st1.outs o.out; (os, toString i)
@@ -229,7 +248,7 @@ def runOp (cls : Cls) (env : Env) (st : St) : DOp → St
       let (st1, s) := showState st img
       { st1 with img := img, acc := st1.acc ++ [s!"ok {s}"] }
 
-def handleRun (quiet : Bool) : List String → String
+def handleRun (quiet byName : Bool) : List String → String
   | [cls, owned, hdr, alias, aff, xflip, src, exts, mat, resolve, table, ops] =>
       match parseCls? cls, parseBool? owned, parseHdr? hdr, parseAliasOpt? alias, parseExts? exts,
             parseNatList? mat, parseResolve? resolve, parseTable? table, (ops.splitOn ";").mapM parseOp? with
@@ -248,7 +267,7 @@ def handleRun (quiet : Bool) : List String → String
                                  slopeRaises := bad }
               let img : Img := { core := { hdr := hdr, alias := alias, data := 1, affine := aff, xflip := xflip,
                                            src := src, hdrObj := 0 }, fileMap := 0 }
-              let (st0, s0) := showState { img := img, quiet := quiet, affs := [], datas := [], hdrs := [],
+              let (st0, s0) := showState { img := img, quiet := quiet, byName := byName, affs := [], datas := [], hdrs := [],
                                            outs := [], acc := [] } img
               let st := ops.foldl (runOp cls env) { st0 with acc := [s0] }
               " | ".intercalate st.acc
@@ -257,8 +276,9 @@ def handleRun (quiet : Bool) : List String → String
   | _ => "bad-op"
 
 def handle : List String → String
-  | "run" :: rest => handleRun false rest
-  | "runq" :: rest => handleRun true rest
+  | "run" :: rest => handleRun false false rest
+  | "runq" :: rest => handleRun true true rest
+  | "runn" :: rest => handleRun false true rest
   | ["gzhdr", kind, level, mtime, clock, path] =>
       -- header of the gzip member written by nibabel's sink (`nib`, mtime argument given) or by plain
       -- `gzip.GzipFile(path, 'wb', level)` (`plain`; mtime ignored); path = bytes `,`-separated
@@ -268,6 +288,17 @@ def handle : List String → String
           else if kind = "plain" then ",".intercalate ((gzHeader (plainSink path level) clock).map toString)
           else "bad-op"
       | _, _, _, _ => "bad-op"
+  | ["wdata", a, b, c, d, e, f, g, h] =>
+      -- one iteration of the slice loop of `_write_data` with these branches taken: does it store into its input?
+      match parseBool? a, parseBool? b, parseBool? c, parseBool? d, parseBool? e, parseBool? f, parseBool? g, parseBool? h with
+      | some a, some b, some c, some d, some e, some f, some g, some h =>
+          if sliceLoopStoresIntoInput ⟨a, b, c, d, e, f, g, h⟩ then "1" else "0"
+      | _, _, _, _, _, _, _, _ => "bad-op"
+  | ["mapsfile", chain] =>
+      -- `maps_file(arr)` on the chain of owners of `arr`
+      match parseChain? chain with
+      | some ch => if mapsFile ch then "1" else "0"
+      | none => "bad-op"
   | ["matload", flip, mat, M] =>
       match parseBool? flip, parseAff? mat, parseAff? M with
       | some flip, some mat, some M =>
